@@ -14,7 +14,12 @@ SPEC = {
              "(selected triples) per category x deployment x initial tier contents, also with one persistent-tier failure at "
              "every position; list-pairs/-triples: ALL interleavings of append/remove pairs; random: 3-4 mixed calls, random "
              "schedule, persistent failures; excluded-*: cache-tier failures and initially disagreeing tiers (outside the "
-             "theorem's hypotheses, judged by the same predicate).  The observation (per-call first/last step and result, final "
+             "theorem's hypotheses, judged by the same predicate); evict-*: the cache entry of a persisted key is dropped (TTL expiry / "
+             "eviction / cache restart) at EVERY position of every interleaving; two-node-*: the two calls of a pair are issued on two "
+             "facade instances sharing the shared cache and the persistent tier (per-node local cache and key lock), all "
+             "interleavings; route also drives SetNX, SetList, SetHash/GetHash/DeleteHash and uses the key constants of "
+             "internal/constants and internal/cloud/repos (incl. the lock: keys of StorageBasedLock); values returned by reads are "
+             "held and looked at again after the run (aliasing probe).  The observation (per-call first/last step and result, final "
              "tier contents, a final sequential Get, the full tier-call trace with values and TTLs) is compared literally with "
              "the model and judged by `holds`; non-trivial = at least two calls or a fault; distinct = distinct realized case lines"),
     "trusted_base": [
@@ -31,11 +36,14 @@ SPEC = {
         "WF: injected failures hit the persistent tier only; cache-tier failures are excluded points, run by the harness and "
         "judged by `holds`: two recorded findings (cache-set-fault-swallowed, cache-read-fault-masked) live there",
         "WF: the tiers initially agree (cache tier empty or equal to the persistent tier); disagreeing tiers are run as excluded points",
-        "one facade instance: the per-key lock of the repair serialises callers of one node; two nodes doing get-modify-set on "
-        "one shared list / racing a write-back through the shared cache are outside the model (needs tier-side atomic list ops / versions)",
+        "two nodes: proved equal to one node for pure shared data (C14_two_node_shared); for persisted categories and shared lists "
+        "the per-node key lock / local cache give three recorded findings (cross-node-writeback, cross-node-local-cache, "
+        "cross-node-list-update) with witness theorems; node-local runtime data is not judged across nodes",
+        "evictions are environment steps only where a persistent tier backs the cache (WF.evict); elsewhere expiry is deletion by TTL",
+        "declaredCrossNode (Spec) is a hand-written list of the key families the code base uses across nodes: the tables must cover it",
         "freshness is stated for get/exists/set/delete histories (plus a final sequential Get), list atomicity for "
         "append/remove histories after all calls returned; mixed histories are compared with the model only",
-        "Incr is modelled as the delegated atomic tier counter; SetHash/GetHash/DeleteHash share cacheTierFor with it "
-        "(skeletons pinned) but are not driven by the harness",
+        "Incr is modelled as the delegated atomic tier counter (the get+set fallback for tiers without CounterStore is not "
+        "driven: memory and Redis both implement it); SetPersistent/SetRuntime (explicit category bypass) are skeleton-pinned only",
     ],
 }
